@@ -691,7 +691,8 @@ def _b2d_contract(variant, cap_shape):
                                                                            E.outer_domain[j + 1].len == E.coordinates_domain_nested[j][E.coordinates_domain_nested[j].len - 1].len))))),
         ], shapes={"outer_domain": ListOf(Field, minlen=1)})},
         raises={"ValueError": None},
-        ensures=[("inner-list-is-a-nested-list", lambda E: Or(E.self.coordinates_domain.len >= 1))]
+        ensures=[("inner-list-is-a-nested-list", lambda E: Or(E.self.coordinates_domain.len >= 1)),
+                 ("stores-flow-specification", lambda E: And(E.self.flow_type == E.flow_type, E.self.V_flow == E.v_flow))]
         + [(n, (lambda E, f=f: f(env_of(E)))) for n, f in ens if n != "search-log-rows-consistent"]
         + [("window-end", lambda E: r0_def(env_of(E), E._g_search_1))],
         returns=NoneT(),
@@ -980,7 +981,8 @@ def _bzd_init_contract(variant, cap_shape):
                                                                            E.outer_domain[j + 1].len == E.coordinates_domain_nested[j][E.coordinates_domain_nested[j].len - 1].len))))),
         ], shapes={"outer_domain": ListOf(Field, minlen=1), "outer_descriptors": ListOf(Str, minlen=1)})},
         raises={"ValueError": None},
-        ensures=[("feasible", lambda E: EX(E.self.selected_coordinates.id, E.sim_params.max_height) < 0),
+        ensures=[("stores-flow-specification", lambda E: And(E.self.flow_type == E.flow_type, E.self.V_flow == E.v_flow)),
+                 ("feasible", lambda E: EX(E.self.selected_coordinates.id, E.sim_params.max_height) < 0),
                  ("sized-ghe-of-the-selection", lambda E: And(E.self.ghe.g_field == E.self.selected_coordinates.id, E.self.ghe.g_H0 == E.sim_params.max_height,
                                                               E.sim_params.min_height <= E.self.ghe.bhe.b.H, E.self.ghe.bhe.b.H <= E.sim_params.max_height)),
                  ("search-log-rows-consistent", lambda E: rows_ok(E, E.self.searchTracker))],
